@@ -144,16 +144,17 @@ func calculateNextQuota(
 		}
 	}
 
-	// The minimum limit quota is 1
-	if next < 1 {
-		next = 1
-	}
 	if next < total*MinimumQuotaPercent {
 		next = total * MinimumQuotaPercent
 	}
 
 	if next-current > remaining {
 		next = current + remaining
+	}
+
+	// The minimum limit quota is 1, also when nothing (or less than nothing) remains
+	if next < 1 {
+		next = 1
 	}
 
 	next = math.Ceil(next)
